@@ -407,3 +407,187 @@ fn srtp_gcm_obligation<const B: usize>() {
 fn c05_unprotect_gcm_body18() {
     srtp_gcm_obligation::<18>();
 }
+
+// ================================================================ C04/C05: construction + cipher profiles
+// (need the `aes`/`ctr` substitutes: SrtpContext::new runs the AES-CM key derivation)
+fn keying() -> SrtpKeyingMaterial { SrtpKeyingMaterial::new(any_vec::<16>(), any_vec::<14>()) }
+
+/// SrtpContext::new: Ok(c) => well_formed(c) (authentication material present for the profile —
+/// otherwise unprotect would silently skip the tag check), fresh index state, key lengths per profile
+fn new_obligation(p: SrtpProfile) {
+    let ssrc: u32 = kani::any();
+    let r = SrtpContext::new(ssrc, p, keying(), SrtpDirection::Receiver);
+    let c = r.unwrap();
+    assert!(well_formed(&c));
+    assert!(c.ssrc == ssrc && c._profile == p && c.rollover_counter == 0 && c.last_sequence.is_none() && c.rtcp_index == 0);
+    assert!(c.rtp_keys.cipher_key.len() == 16 && c.rtcp_keys.cipher_key.len() == 16);
+    assert!(c.rtp_keys.salt.len() == p.salt_len() && c.rtcp_keys.salt.len() == p.salt_len());
+    assert!(c.rtp_keys.auth_key.len() == p.auth_key_len() && c.rtcp_keys.auth_key.len() == p.auth_key_len());
+    core::mem::forget(c);
+}
+#[kani::proof]
+#[kani::unwind(70)]
+#[kani::stub(std::time::Instant::now, st_instant_now)]
+fn c05_new_well_formed_sha80() { new_obligation(SrtpProfile::Aes128Sha1_80); }
+#[kani::proof]
+#[kani::unwind(70)]
+#[kani::stub(std::time::Instant::now, st_instant_now)]
+fn c05_new_well_formed_sha32() { new_obligation(SrtpProfile::Aes128Sha1_32); }
+#[kani::proof]
+#[kani::unwind(70)]
+#[kani::stub(std::time::Instant::now, st_instant_now)]
+fn c05_new_well_formed_null() { new_obligation(SrtpProfile::NullCipherHmac); }
+#[kani::proof]
+#[kani::unwind(70)]
+#[kani::stub(std::time::Instant::now, st_instant_now)]
+fn c05_new_well_formed_gcm() { new_obligation(SrtpProfile::AeadAes128Gcm); }
+/// short master key / salt is rejected (no panic in the slice copies of new/kdf)
+#[kani::proof]
+#[kani::unwind(70)]
+#[kani::stub(std::time::Instant::now, st_instant_now)]
+fn c05_new_rejects_short_keying() {
+    let k = SrtpKeyingMaterial::new(any_vec::<15>(), any_vec::<14>());
+    assert!(SrtpContext::new(1, SrtpProfile::Aes128Sha1_80, k, SrtpDirection::Sender).is_err());
+    let k = SrtpKeyingMaterial::new(any_vec::<16>(), any_vec::<13>());
+    assert!(SrtpContext::new(1, SrtpProfile::Aes128Sha1_80, k, SrtpDirection::Sender).is_err());
+    let k = SrtpKeyingMaterial::new(any_vec::<16>(), any_vec::<11>());
+    assert!(SrtpContext::new(1, SrtpProfile::AeadAes128Gcm, k, SrtpDirection::Sender).is_err());
+}
+
+fn ctx_cm(profile: SrtpProfile, ak: &[u8], ck: [u8; 16]) -> SrtpContext {
+    let mut c = ctx_hmac(profile, ak, ak);
+    c.rtp_aes_key = <Aes128 as ctr::cipher::KeyInit>::new(&ck.into());
+    c.rtcp_aes_key = <Aes128 as ctr::cipher::KeyInit>::new(&ck.into());
+    c
+}
+
+/// protect: output == header image || body (ciphered for AES-CM, clear for NULL) || MAC(header||body||ROC)[..tag]
+/// length == protected_rtp_len, padding bytes == padding_len, P bit set iff padding, state advanced per post_update
+fn protect_layout_obligation<const PL: usize, const PAD: u8>(profile: SrtpProfile) {
+    let ak = [0x5au8; 20];
+    let mut c = ctx_cm(profile, &ak, [0x11; 16]);
+    c.direction = SrtpDirection::Sender;
+    kani::assume(well_formed(&c));
+    let tag_len = profile.tag_len();
+    let old = crypto_state(&c);
+    let pl: [u8; PL] = kani::any();
+    let mut h = RtpHeader::new(kani::any::<u8>() & 0x7f, kani::any(), kani::any(), kani::any());
+    h.marker = kani::any();
+    let seq = h.sequence_number;
+    let pkt = RtpPacket { header: h, payload: static_bytes_of(pl), padding_len: PAD };
+    let n = c.protected_rtp_len(&pkt);
+    assert!(n == 12 + PL + PAD as usize + tag_len);
+    let mut out = vec![0u8; n];
+    c.protect(&pkt, &mut out).unwrap();
+    let roc = post_estimate_roc_value(old.0, old.1, seq);
+    // header image
+    let mut hdr = [0u8; 12];
+    pkt.header.write_to(PAD != 0, &mut hdr[..]);
+    assert!(out[..12] == hdr[..]);
+    // body: payload || padding, through the keystream for AES-CM
+    let mut body = [0u8; 64];
+    body[..PL].copy_from_slice(&pl);
+    let mut i = PL; while i < PL + PAD as usize { body[i] = PAD; i += 1; }
+    let bl = PL + PAD as usize;
+    if !matches!(profile, SrtpProfile::NullCipherHmac) && bl != 0 {
+        let iv = spec_iv_aes_cm(&c.rtp_keys.salt, c.ssrc, roc, seq);
+        let mut ks = <Aes128Ctr as ctr::cipher::KeyIvInit>::new_from_slices(&[0x11; 16], &iv).unwrap();
+        ks.apply_keystream(&mut body[..bl]);
+    }
+    assert!(out[12..12 + bl] == body[..bl]);
+    // tag = MAC over everything before it, then the ROC
+    let mut mac = <HmacSha1 as hmac::digest::KeyInit>::new_from_slice(&ak).unwrap();
+    mac.update(&out[..12 + bl]);
+    mac.update(&roc.to_be_bytes());
+    let t = mac.finalize().into_bytes();
+    assert!(out[12 + bl..] == t[..tag_len]);
+    assert!(post_update(old.0, old.1, seq, roc, c.rollover_counter, c.last_sequence) && c.rtcp_index == old.2);
+    core::mem::forget(pkt);
+}
+#[kani::proof]
+#[kani::unwind(30)]
+fn c04_protect_layout_null_p4() { protect_layout_obligation::<4, 0>(SrtpProfile::NullCipherHmac); }
+#[kani::proof]
+#[kani::unwind(30)]
+fn c04_protect_layout_sha80_p4_pad2() { protect_layout_obligation::<4, 2>(SrtpProfile::Aes128Sha1_80); }
+#[kani::proof]
+#[kani::unwind(30)]
+fn c04_protect_layout_sha32_p0() { protect_layout_obligation::<0, 0>(SrtpProfile::Aes128Sha1_32); }
+
+/// composed round trip on two contexts holding the same keys: protect into a slice, re-wrap the
+/// output as an SrtpPacket (header as parsed, body = the rest), unprotect: header fields, payload
+/// and padding come back unchanged and both contexts end in the same (roc, last_sequence)
+fn roundtrip_obligation<const PL: usize, const PAD: u8, const N: usize>(profile: SrtpProfile) {
+    let ak = [0x5au8; 20];
+    let mut tx = ctx_cm(profile, &ak, [0x11; 16]);
+    let mut rx = ctx_cm(profile, &ak, [0x11; 16]);
+    rx.ssrc = tx.ssrc; rx.rtp_keys.salt = tx.rtp_keys.salt.clone();
+    rx.rollover_counter = tx.rollover_counter; rx.last_sequence = tx.last_sequence;
+    kani::assume(well_formed(&tx) && well_formed(&rx));
+    let pl: [u8; PL] = kani::any();
+    let mut h = RtpHeader::new(kani::any::<u8>() & 0x7f, kani::any(), kani::any(), kani::any());
+    h.marker = kani::any();
+    let pkt = RtpPacket { header: h.clone(), payload: static_bytes_of(pl), padding_len: PAD };
+    let mut out = [0u8; N];
+    assert!(tx.protected_rtp_len(&pkt) == N);
+    tx.protect(&pkt, &mut out[..]).unwrap();
+    let sp = SrtpPacket { header: h, body: BytesMut::from(&out[12..]), has_padding: PAD != 0 };
+    let got = rx.unprotect(sp).unwrap();
+    assert!(got.header == pkt.header && got.payload[..] == pl[..] && got.padding_len == PAD);
+    assert!(rx.rollover_counter == tx.rollover_counter && rx.last_sequence == tx.last_sequence);
+    core::mem::forget(got); core::mem::forget(pkt);
+}
+#[kani::proof]
+#[kani::unwind(30)]
+fn c04_roundtrip_null_p2() { roundtrip_obligation::<2, 0, 24>(SrtpProfile::NullCipherHmac); }
+#[kani::proof]
+#[kani::unwind(30)]
+fn c04_roundtrip_sha80_p2_pad2() { roundtrip_obligation::<2, 2, 26>(SrtpProfile::Aes128Sha1_80); }
+
+/// SRTCP: protect_rtcp then unprotect_rtcp is the identity; E bit set; index appended big-endian
+/// right before the tag and incremented per packet
+fn rtcp_roundtrip_obligation<const N: usize>(profile: SrtpProfile) {
+    let ak = [0x5au8; 20];
+    let mut tx = ctx_cm(profile, &ak, [0x11; 16]);
+    let mut rx = ctx_cm(profile, &ak, [0x11; 16]);
+    rx.ssrc = tx.ssrc; rx.rtcp_keys.salt = tx.rtcp_keys.salt.clone();
+    kani::assume(tx.rtcp_index < 0x7FFF_FFFE);
+    let i0 = tx.rtcp_index;
+    let raw: [u8; N] = kani::any();
+    let mut p = raw.to_vec();
+    tx.protect_rtcp(&mut p).unwrap();
+    let tl = profile.tag_len();
+    assert!(p.len() == N + 4 + tl && p[..8] == raw[..8]);
+    assert!(p[N..N + 4] == ((i0 + 1) | 0x8000_0000).to_be_bytes() && tx.rtcp_index == i0 + 1);
+    rx.unprotect_rtcp(&mut p).unwrap();
+    assert!(p[..] == raw[..]);
+}
+#[kani::proof]
+#[kani::unwind(30)]
+fn c04_rtcp_roundtrip_null_12() { rtcp_roundtrip_obligation::<12>(SrtpProfile::NullCipherHmac); }
+#[kani::proof]
+#[kani::unwind(30)]
+fn c04_rtcp_roundtrip_sha80_12() { rtcp_roundtrip_obligation::<12>(SrtpProfile::Aes128Sha1_80); }
+
+// recording stub: which IV does cipher_rtcp hand to the cipher?
+static mut RTCP_IV: [u8; 16] = [0; 16];
+fn rec_ctr_from_key(key: &Aes128, iv: [u8; 16]) -> Aes128Ctr {
+    unsafe { RTCP_IV = iv; }
+    let core = <ctr::CtrCore<Aes128, ctr::flavors::Ctr128BE> as InnerIvInit>::inner_iv_init(key.clone(), &iv.into());
+    Aes128Ctr::from_core(core)
+}
+/// cipher_rtcp: IV == (k_s*2^16) xor (SSRC*2^64) xor (index*2^16) (RFC 3711 4.1.1 with the SRTCP index), first 8 bytes untouched
+#[kani::proof]
+#[kani::unwind(24)]
+#[kani::stub(SrtpContext::ctr_from_key, rec_ctr_from_key)]
+fn c04_cipher_rtcp_iv_spec() {
+    let c = ctx_cm(SrtpProfile::Aes128Sha1_80, &[0x5a; 20], [0x11; 16]);
+    let index: u32 = kani::any();
+    let raw: [u8; 12] = kani::any();
+    let mut p = raw;
+    c.cipher_rtcp(&mut p[..], index);
+    let mut ks: u128 = 0; let mut j = 0; while j < 14 { ks = (ks << 8) | c.rtcp_keys.salt[j] as u128; j += 1; }
+    let want = ((ks << 16) ^ ((c.ssrc as u128) << 64) ^ ((index as u128) << 16)).to_be_bytes();
+    unsafe { assert!(RTCP_IV == want); }
+    assert!(p[..8] == raw[..8]);
+}
